@@ -122,6 +122,13 @@ def reference(G, names):
     return out
 
 
+def _same_matrices(a, b):
+    try:
+        return set(a) == set(b) and all(set(a[t]) == set(b[t]) and all(abs(a[t][k] - b[t][k]) <= TOL for k in b[t]) for t in b)
+    except Exception:
+        return False
+
+
 def compare_matrix(res, got, want, T, ctx):
     res.count("matrices_compared")
     for k in set(got) | set(want):
@@ -185,6 +192,9 @@ def run_case(case):
     refs = [reference(G, names) for G, names, _ in graphs]
     snaps = [snapshot(G) for G, _, _ in graphs]
     extractors = []
+    shared = {} if rng.random() < 0.4 else None
+    if shared is not None:
+        res.count("histories_with_one_parameter_dict_for_all_extractors")
     for _ in range(rng.choice([1, 2, 3])):
         gi = rng.randrange(len(graphs))
         G, names, kind = graphs[gi]
@@ -194,7 +204,13 @@ def run_case(case):
             # slots, the vertices' excess tuples keep every slot
             used = list(names[: rng.randint(1, len(names) - 1)])
             res.count("extractors_with_a_prefix_of_the_names")
-        ex = sut("JointExcessJointDegree(params)", gcmpy.JointExcessJointDegree, {TN.NETWORK: G, TN.EDGE_NAMES: list(used)})
+        if shared is not None:
+            # the caller fills ONE parameter dictionary again and again, one extractor after the other
+            shared[TN.NETWORK] = G
+            shared[TN.EDGE_NAMES] = list(used)
+            ex = sut("JointExcessJointDegree(params dict used before)", gcmpy.JointExcessJointDegree, shared)
+        else:
+            ex = sut("JointExcessJointDegree(params)", gcmpy.JointExcessJointDegree, {TN.NETWORK: G, TN.EDGE_NAMES: list(used)})
         extractors.append((gi, ex, used))
     history = []
     for x, (gi, ex, _used) in enumerate(extractors):
@@ -206,6 +222,7 @@ def run_case(case):
     multi = False
     classes = 0
     _hook["snaps"] = []
+    earlier = []
     for x in history:
         gi, ex, used = extractors[x]
         G, names, kind = graphs[gi]
@@ -246,6 +263,14 @@ def run_case(case):
                "joint_degrees": [G.nodes[v][NN.JOINT_DEGREE] for v in list(G.nodes())[:25]]}
         ej = sut("ejks", lambda: r.ejks)
         keys = sut("excess_degree_keys", lambda: r.excess_degree_keys)
+        # results handed out EARLIER are the caller's: asking again (possibly after the network was edited in place) must not change them
+        stale = [(r0, s0) for r0, s0, x0 in earlier if r0 is not r and not _same_matrices(sut("ejks of an earlier result", lambda: r0.ejks), s0)]
+        aliased = [(r0, s0) for r0, s0, x0 in earlier if r0 is r and not _same_matrices(ej, s0)]
+        if stale or aliased:
+            res.violate("an-earlier-result-changed-when-the-extractor-was-asked-again", same_object_handed_out_again=bool(aliased),
+                        earlier=repr(sorted((stale or aliased)[0][1].items()))[:300], now=repr(sorted(((stale or aliased)[0][0]).ejks.items()))[:300], ctx=ctx); break
+        earlier.append((r, copy.deepcopy(ej), x))
+        res.count("earlier_results_rechecked", len(earlier) - 1)
         if not isinstance(ej, dict) or set(ej) != set(used):
             res.violate("matrices-not-keyed-by-the-topology-names", got=repr(list(ej))[:200] if isinstance(ej, dict) else repr(ej)[:100], ctx=ctx); break
         ok = True
